@@ -15,6 +15,7 @@ import (
 	"sort"
 	"strings"
 	"sync"
+	"sync/atomic"
 	"time"
 
 	corecrl "github.com/notaryproject/notation-core-go/revocation/crl"
@@ -67,6 +68,8 @@ var seqURLPool = []string{
 	"http://crl.verif.example/a.crl/",
 	"file:///" + strings.Repeat("../", 20) + "tmp/x",
 }
+
+var justExpiredCRLBudget int32 = 32
 
 var seqCRLs sync.Map // "id/fresh" -> *x509.RevocationList
 
@@ -265,12 +268,39 @@ func runCRLSeq() int {
 		must(err)
 		before = snapshotTree(parent, root)
 		ctx := context.Background()
+		// "no longer fresh" realised as JUST expired (a few cases per run): the next-update time lies a second ahead when the
+		// bundle is stored; every read of this case waits until it has passed (by a tenth of a second)
+		var expiresAt time.Time
+		justExpired := false
+		for i, op := range in.Ops {
+			if op.Op == "Set" && !op.B.BaseFresh && salt%3 == 2 {
+				for _, later := range in.Ops[i+1:] {
+					if later.Op == "Get" && later.U == op.U { // (only where a read of that URL follows)
+						justExpired = true
+					}
+				}
+			}
+		}
+		if justExpired && atomic.AddInt32(&justExpiredCRLBudget, -1) < 0 {
+			justExpired = false
+		}
 		for _, op := range in.Ops {
 			u := urlFor(op.U)
 			var bundle *corecrl.Bundle
 			switch op.Op {
+			case "Get":
+				if d := time.Until(expiresAt.Add(100 * time.Millisecond)); justExpired && d > 0 {
+					time.Sleep(d)
+				}
 			case "Set":
 				bundle = concBundle(op.B)
+				if justExpired && !op.B.BaseFresh {
+					nu := time.Now().Add(1200 * time.Millisecond).Truncate(time.Second)
+					if nu.After(expiresAt) {
+						expiresAt = nu
+					}
+					bundle = &corecrl.Bundle{BaseCRL: makeCRL(7, nu, op.B.Base, false), DeltaCRL: bundle.DeltaCRL}
+				}
 			case "SetNil":
 				if op.K == "base" {
 					bundle = &corecrl.Bundle{DeltaCRL: seqCRL(9, true, true)}
